@@ -179,6 +179,11 @@ func (a *e2eApp) ApplySnapshotChunk(req abci.RequestApplySnapshotChunk) abci.Res
 		run.errs = append(run.errs, fmt.Sprintf("FINDING %s: journal[%d]: chunk %d from sender %s applied although the app rejected that sender at journal[%d]",
 			findingLateChunk, pos, req.Index, req.Sender, at))
 	}
+	if len(run.errs) > 0 {
+		// an invariant is already broken: end the restoration now instead of steering it on (rejecting the sender
+		// of a mangled chunk could leave no usable peer and make Sync wait for chunkTimeout and rediscovery)
+		return abci.ResponseApplySnapshotChunk{Result: abci.ResponseApplySnapshotChunk_ABORT}
+	}
 	if string(req.Chunk) == genuineChunk(a.run.sc.height, req.Index) {
 		run.accepted[req.Index] = true
 		return abci.ResponseApplySnapshotChunk{Result: abci.ResponseApplySnapshotChunk_ACCEPT}
